@@ -254,7 +254,7 @@ fn cases(tier: Tier) -> u64 {
     tier.pick(150_000, 4_500_000)
 }
 
-fn case_json(t: &[u8], l: &[u8], op: u8, site: u16) -> Value {
+pub fn case_json(t: &[u8], l: &[u8], op: u8, site: u16) -> Value {
     let stream = gen_stream(t, &GenCfg::default());
     let (text, sites) = render_with_sites(&stream, l, true);
     let applicable: Vec<usize> = (0..OPS.len()).filter(|o| !damages(*o, &text, &sites, &stream).is_empty()).collect();
